@@ -44,9 +44,15 @@ def using_(
             d = reactivex.throw(exception).subscribe(observer, scheduler=scheduler)
             return CompositeDisposable(d, disp)
 
-        return CompositeDisposable(
-            source.subscribe(observer, scheduler=scheduler), disp
-        )
+        try:
+            subscription = source.subscribe(observer, scheduler=scheduler)
+        except Exception:
+            # subscribing failed and the observer's on_error raised: nobody will
+            # ever get a handle to dispose, so release the resource here
+            disp.dispose()
+            raise
+
+        return CompositeDisposable(subscription, disp)
 
     return Observable(subscribe)
 
